@@ -32,6 +32,9 @@ def run(ctx):
     el.peer_replay(ctx, "C05", sim.replays, "sim")
     # the ZMTP/2.0 verdict: a completed handshake exactly for valid pairings
     r = el.script_replay(ctx, "C05", v2.replays, "v2")
+    # ... and the same verdict under every delivery schedule of the legacy peer's bytes (one read, one read per
+    # token, one byte per read, random cuts): the engine must not depend on where a read ends
+    el.segment_check(ctx, "C05", v2.replays, "v2seg", also=("C04",))    # here the outcome that differs is the handshake verdict itself
     ctx.extra["socket_type_pairs_v3"] = len(allp.replays)
     ctx.extra["socket_type_pairs_v2"] = len(v2.replays)
     el.selftest(ctx, "peer", sim.replays)
